@@ -104,7 +104,7 @@ class Style:
         return [' ', '', '  ', '\n  '][self.pick(4)]
 
 
-def render_verilog(nl, lib, seed, simple=False):
+def render_verilog(nl, lib, seed, simple=False, modname='top'):
     """-> (text, truth) with truth = dict(ports=[names in io order], pi=[name per PI], po=[name per PO], st=[instance name per state element])"""
     L = LIBS[lib]
     st = Style(seed)
@@ -343,7 +343,7 @@ def render_verilog(nl, lib, seed, simple=False):
         else:
             step = 1 if rng[0] <= rng[1] else -1
             ports_in_order += [f'{h}[{i}]' for i in range(rng[0], rng[1] + step, step)]
-    text = f'// generated\n{st.sp()}module{st.ws()}top{st.sp()}({st.sp()}' + f'{st.sp()},{st.sp()}'.join(hdr) + f'{st.sp()}){st.sp()};\n' + \
+    text = f'// generated\n{st.sp()}module{st.ws()}{modname}{st.sp()}({st.sp()}' + f'{st.sp()},{st.sp()}'.join(hdr) + f'{st.sp()}){st.sp()};\n' + \
            '\n'.join(f'{st.sp()}{s_}' for s_ in allst) + f'\nendmodule{st.ws()}\n'
     return text, dict(ports=ports_in_order, pi=pi_names, po=po_names, st=st_names, skipped=sorted(skip_gate), insts=insts,
                       net={k_: tname(v) for k_, v in net.items()}, bound_po=sorted(bound_po))
